@@ -154,6 +154,32 @@ func c13Corner(run *PropRun) {
 		k = k + b.Len() + n2
 	}`, te.Name))
 	}
+	for _, g := range run.Groups {
+		switch g.Name {
+		case "tcell.(*CellBuffer).UnlockCell/ensures#never-locked":
+			g.ReplayGo = replayTest("tcell", nil, `
+	var cb CellBuffer
+	cb.Resize(4, 2)
+	cb.SetContent(1, 1, 'n', nil, StyleDefault)
+	cb.SetDirty(1, 1, false)
+	cb.UnlockCell(1, 1) // never locked
+	if cb.Dirty(1, 1) { fail("UnlockCell on a cell that was never locked made the clean cell dirty: it will be repainted although nothing changed"); return }`)
+		case "tcell.(*CellBuffer).SetContent/ensures#selfdirty":
+			g.ReplayGo = replayTest("tcell", nil, `
+	var cb CellBuffer
+	cb.Resize(4, 2)
+	cb.SetContent(1, 1, 'a', nil, StyleDefault)
+	cb.SetDirty(1, 1, false) // 'a' is on the terminal
+	cb.Fill(' ', StyleDefault) // the usual frame loop: clear ...
+	cb.SetContent(1, 1, 'a', nil, StyleDefault) // ... and draw the same thing again
+	if cb.Dirty(1, 1) { fail("Clear followed by the identical content left the cell dirty: every frame repaints every non-blank cell"); return }
+	cb.SetContent(1, 1, 'b', nil, StyleDefault)
+	cb.SetContent(1, 1, 'a', nil, StyleDefault)
+	if cb.Dirty(1, 1) { fail("a -> b -> a between two Shows left the cell dirty although it shows what the terminal shows"); return }
+	cb.SetContent(1, 1, 'c', nil, StyleDefault)
+	if !cb.Dirty(1, 1) { fail("a real change is not reported dirty"); return }`)
+		}
+	}
 	run.Extra["descriptions_with_the_corner_trick"] = n
 	for k := range c.Assumed {
 		run.Assumed[k] = true
